@@ -7,11 +7,19 @@ registrations, parser caches) starts empty exactly like in a newly started inter
 (and with it the on-disk result cache) is kept across the segments of one history.
 
 stdin : one JSON request per line  {"id", "feeds": {name: "alchemy" | "monolite"}, "start": {name: content index},
+                                    "unavail": [name...] (feeds whose storage does not exist at the start),
                                     "contents": [{table: rows}...], "stmts": [ast...], "hist": [{a, f, s}...]}
+                                    actions a: read (f, s) | mutate (f: next content, creates a missing storage) |
+                                    break (f: the storage becomes unavailable) | restart
 stdout: one JSON reply per line    {"id", "reads": [{"at": position, "rows": [[...]...]} | {"at", "error": text}]}
 
+A request {"id", "kind": "lazy", "stmts": [ast...]} (C14) is a history of reads through ONE lazy feed reader in ONE fresh
+process (own ForML home): the reply is {"id", "reads": [{"res", "cols": [[table, [column...]]...]}...]} - per read the
+columns the reader asked its origins for (``harness.relgen.lazy_columns``).
+
 Storage of a feed: alchemy -> the SQLite file <home>/<feed>.db, monolite -> the CSV file <home>/<feed>.csv; both hold
-the table under the schema's name, so equally named tables exist in every storage.  Feeds are read through the public
+the table under the schema's name, so equally named tables exist in every storage (unavailable storage: the table is
+dropped from the SQLite file / the CSV file is removed - the feed is still configured for it).  Feeds are read through the public
 producer factory (``Feed.producer(sources, features, **reader kwargs)``) and ``layout.Tabular.to_rows()``.
 """
 import csv
@@ -51,8 +59,24 @@ def write_storage(home, feed, kind, content):
             os.replace(tmp, path)
 
 
+def drop_storage(home, feed, kind, tables):
+    """The storage of the feed becomes unavailable: no such table / no such file."""
+    if kind == 'alchemy':
+        con = sqlite3.connect(os.path.join(home, f'{feed}.db'))
+        for table in tables:
+            con.execute(f'DROP TABLE IF EXISTS "{table}"')
+        con.commit()
+        con.close()
+    else:
+        for table in tables:
+            try:
+                os.remove(os.path.join(home, f'{feed}.{table}.csv'))
+            except FileNotFoundError:
+                pass
+
+
 # ------------------------------------------------------------------------------------------------ child (one process)
-def child_main(home, feeds, stmts, rfd, wfd):
+def child_main(home, feeds, stmts, rfd, wfd, stored):
     """Serve read requests inside one fresh process until the pipe closes."""
     os.environ['FORML_HOME'] = home
     os.chdir(home)
@@ -74,8 +98,8 @@ def child_main(home, feeds, stmts, rfd, wfd):
                                                     connection=f'sqlite:///{os.path.join(home, name + ".db")}')
             else:
                 from forml.provider.feed import monolite
-                spec = {tab: os.path.join(home, f'{name}.{t}.csv') for t, tab in tables.items()
-                        if os.path.exists(os.path.join(home, f'{name}.{t}.csv'))}
+                # configured for every table its storage is meant to hold - whether the file exists right now or not
+                spec = {tab: os.path.join(home, f'{name}.{t}.csv') for t, tab in tables.items() if t in stored}
                 feed = monolite.Feed(csv=spec)
                 readers[name] = type(feed).producer(feed.sources, feed.features, origins=monolite.Csv.create(spec))
         return readers[name]
@@ -99,7 +123,7 @@ def child_main(home, feeds, stmts, rfd, wfd):
 class Process:
     """One forked 'process' of a history."""
 
-    def __init__(self, home, feeds, stmts):
+    def __init__(self, home, feeds, stmts, stored):
         to_child_r, to_child_w = os.pipe()
         from_child_r, from_child_w = os.pipe()
         self.pid = os.fork()
@@ -107,7 +131,7 @@ class Process:
             os.close(to_child_w)
             os.close(from_child_r)
             try:
-                child_main(home, feeds, stmts, to_child_r, from_child_w)
+                child_main(home, feeds, stmts, to_child_r, from_child_w, stored)
             finally:
                 os._exit(1)
         os.close(to_child_r)
@@ -137,18 +161,24 @@ def replay(req):
     reads = []
     try:
         current = dict(req['start'])
+        stored = sorted({t for content in req['contents'] for t in content})
         for name, kind in req['feeds'].items():
-            write_storage(home, name, kind, req['contents'][current[name] - 1])
+            if name in req.get('unavail', ()):
+                drop_storage(home, name, kind, stored)
+            else:
+                write_storage(home, name, kind, req['contents'][current[name] - 1])
         for pos, act in enumerate(req['hist'], start=1):
             if act['a'] == 'read':
                 if proc is None:
-                    proc = Process(home, req['feeds'], req['stmts'])
+                    proc = Process(home, req['feeds'], req['stmts'], stored)
                 res = proc.read(act['f'], act['s'])
                 res['at'] = pos
                 reads.append(res)
             elif act['a'] == 'mutate':
                 current[act['f']] = current[act['f']] % len(req['contents']) + 1
                 write_storage(home, act['f'], req['feeds'][act['f']], req['contents'][current[act['f']] - 1])
+            elif act['a'] == 'break':
+                drop_storage(home, act['f'], req['feeds'][act['f']], stored)
             elif act['a'] == 'restart':
                 if proc is not None:
                     proc.stop()
@@ -157,6 +187,44 @@ def replay(req):
         if proc is not None:
             proc.stop()
         shutil.rmtree(home, ignore_errors=True)
+    return {'id': req['id'], 'reads': reads}
+
+
+def replay_lazy(req):
+    """Reads of one fresh process through a lazy feed reader whose origins record the columns they are asked for."""
+    home = tempfile.mkdtemp(prefix='verif-lazy-')
+    rfd, wfd = os.pipe()
+    pid = os.fork()
+    if pid == 0:
+        os.close(rfd)
+        try:
+            os.environ['FORML_HOME'] = home
+            os.chdir(home)
+            import warnings
+            warnings.simplefilter('ignore')
+            import logging
+            logging.disable(logging.CRITICAL)
+            reads = []
+            for ast in req['stmts']:
+                seen = relgen.lazy_columns(ast)
+                reads.append({'res': seen['res'], 'cols': [[t, c] for t, c in sorted(seen['cols'].items())]})
+            with os.fdopen(wfd, 'w') as fh:
+                json.dump(reads, fh)
+        except BaseException as exc:  # pylint: disable=broad-except
+            with os.fdopen(wfd, 'w') as fh:
+                json.dump({'fatal': f'{type(exc).__name__}: {exc}', 'trace': traceback.format_exc()[-1500:]}, fh)
+        finally:
+            os._exit(0)
+    os.close(wfd)
+    try:
+        with os.fdopen(rfd, 'r') as fh:
+            text = fh.read()
+        os.waitpid(pid, 0)
+    finally:
+        shutil.rmtree(home, ignore_errors=True)
+    reads = json.loads(text) if text else {'fatal': 'the reading process died'}
+    if isinstance(reads, dict):
+        return {'id': req['id'], 'fatal': reads['fatal'], 'trace': reads.get('trace')}
     return {'id': req['id'], 'reads': reads}
 
 
@@ -207,7 +275,7 @@ def main():
             continue
         req = json.loads(line)
         try:
-            reply = replay(req)
+            reply = replay_lazy(req) if req.get('kind') == 'lazy' else replay(req)
         except BaseException as exc:  # pylint: disable=broad-except
             reply = {'id': req.get('id'), 'fatal': f'{type(exc).__name__}: {exc}', 'trace': traceback.format_exc()[-1500:]}
         sys.stdout.write(json.dumps(reply) + '\n')
